@@ -329,3 +329,62 @@ func VH_C07_receiver() {
 	v.Assert(v.Goroutines() == 0, "every receiver goroutine has ended")
 	v.Cover("done")
 }
+
+// VH_C07_many: a listing of N regular files (N > the sum of the receiver's internal queues) sent
+// by a reference sender that, like the real one may, announces the whole tree before it delivers
+// any content: the receiver keeps reading the stream, requests every file once, stores every
+// payload and finishes with the FIN handshake (a receiver that stops reading stats while it waits
+// for content deadlocks against such a sender).
+func VH_C07_many() {
+	n := int(v.Param("N", 320))
+	m.Reset()
+	dest := m.Root("dest")
+	name := func(i int) string {
+		return "f" + string([]byte{byte('0' + i/100), byte('0' + (i/10)%10), byte('0' + i%10)})
+	}
+	ctx := context.Background()
+	rcv, snd := vh_newStreamPair(ctx, 8)
+	var recvErr error
+	done := make(chan struct{})
+	go func() {
+		recvErr = Receive(ctx, rcv, dest, ReceiveOpt{})
+		close(done)
+	}()
+	for i := 0; i < n; i++ {
+		snd.SendMsg(&types.Packet{Type: types.PACKET_STAT, Stat: &types.Stat{Path: name(i), Mode: 0644, Uid: 1, Gid: 1, Size: 1, ModTime: vh_mtimes()[0]}})
+	}
+	snd.SendMsg(&types.Packet{Type: types.PACKET_STAT})
+	requested := map[uint32]int{}
+	for fin := false; !fin; {
+		var p types.Packet
+		if err := snd.RecvMsg(&p); err != nil {
+			v.Assert(false, "receiver closed the stream before FIN")
+			return
+		}
+		switch p.Type {
+		case types.PACKET_REQ:
+			requested[p.ID]++
+			snd.SendMsg(&types.Packet{Type: types.PACKET_DATA, ID: p.ID, Data: []byte{byte(p.ID)}})
+			snd.SendMsg(&types.Packet{Type: types.PACKET_DATA, ID: p.ID})
+		case types.PACKET_FIN:
+			fin = true
+		case types.PACKET_ERR:
+			v.Assert(false, "receiver reported an error on a legal stream")
+			return
+		}
+	}
+	snd.SendMsg(&types.Packet{Type: types.PACKET_FIN})
+	snd.CloseSend()
+	<-done
+	v.Assert(recvErr == nil, "Receive returns success on a long legal listing")
+	v.Assert(len(requested) == n, "every file of a long listing is requested")
+	for id, c := range requested {
+		v.Assert(c == 1 && int(id) < n, "each exactly once, by its position")
+	}
+	snap := m.Snapshot(dest)
+	v.Assert(len(snap) == n, "every file of a long listing is stored")
+	for i := range snap {
+		v.Assert(len(snap[i].Data) == 1 && int(snap[i].Data[0]) == i%256, "with the payload received for its id")
+	}
+	v.Cover("done")
+}
